@@ -32,6 +32,7 @@ import CaddyModel.Util.Hex
 import CaddyModel.C05.Model
 import CaddyModel.C05.WitnessData
 import CaddyModel.C05.Adapt
+import CaddyModel.C05.Provision
 
 namespace CaddyModel.C05
 
@@ -263,9 +264,9 @@ def handleCase (routes errs req named : String) : String :=
   match parseRoutes routes, parseReq req, parseRoutes named with
   | some rs, some r, some env =>
     if !rsValid rs || !rsValid env || !namedValid 0 env then "bad-op" else
-    if errs == "-" then showResult (serveNamed env rs false [] r)
+    if errs == "-" then showResult (serveProvisioned env rs false [] r)
     else match parseRoutes errs with
-      | some es => if rsValid es then showResult (serveNamed env rs true es r) else "bad-op"
+      | some es => if rsValid es then showResult (serveProvisioned env rs true es r) else "bad-op"
       | none => "bad-op"
   | _, _, _ => "bad-op"
 
